@@ -1,6 +1,7 @@
 //! C16 stream `s`: real derived (`#[derive(FromTLV, ToTLV)]`) wire structures round-tripped.
 //!
-//! A value is written as text: `-` (Option::None), `n` (Nullable null), a decimal number, `T` / `F`,
+//! A value is written as text: `-` (Option::None), `n` (Nullable null), a decimal number (unsigned integer,
+//! flags, the bit pattern of a float), `+<n>` / `-<n>` (a signed integer, always with its sign), `T` / `F`,
 //! `x<hex>` (octet / UTF-8 string), `{ slot … }` (structure, slots in field order), `[ value … ]`
 //! (array). `enc <value>` builds the Rust value and runs the derived `to_tlv` with an anonymous tag
 //! (for the structures that only derive `FromTLV` — the Sigma messages — the bytes are produced by a
@@ -13,6 +14,8 @@ use core::num::NonZeroU8;
 
 use rs_matter::acl::{AclEntry, AuthMode, Target};
 use rs_matter::dm::clusters::acl::AccessControlAuxiliaryTypeEnum;
+use rs_matter::dm::clusters::thread_diag::NeighborTable;
+use rs_matter::dm::clusters::time_sync::DSTOffsetEntry;
 use rs_matter::dm::Privilege;
 use rs_matter::error::Error;
 use rs_matter::im::{
@@ -33,6 +36,8 @@ pub enum V {
     Absent,
     Null,
     Num(u64),
+    /// a signed integer field (`iN`, `NonZeroIN`)
+    Int(i64),
     Bool(bool),
     Bytes(Vec<u8>),
     Obj(Vec<V>),
@@ -95,6 +100,9 @@ fn parse_one(toks: &[&str], pos: &mut usize) -> Result<V, String> {
             }
             V::Bytes(if h.is_empty() { Vec::new() } else { unhex(h) })
         }
+        x if x.len() > 1 && (x.starts_with('+') || x.starts_with('-')) && x[1..].bytes().all(|c| c.is_ascii_digit()) => {
+            V::Int(x.parse::<i64>().map_err(|_| "BADSLOT".to_string())?)
+        }
         x => V::Num(x.parse::<u64>().map_err(|_| "BADSLOT".to_string())?),
     })
 }
@@ -113,6 +121,7 @@ pub fn show(v: &V) -> String {
         V::Absent => "-".into(),
         V::Null => "n".into(),
         V::Num(n) => n.to_string(),
+        V::Int(i) => format!("{:+}", i),
         V::Bool(true) => "T".into(),
         V::Bool(false) => "F".into(),
         V::Bytes(b) => format!("x{}", if b.is_empty() { String::new() } else { hex(b) }),
@@ -139,6 +148,24 @@ fn num(v: &V) -> R<u64> {
         V::Num(n) => Ok(*n),
         _ => bad(),
     }
+}
+fn int(v: &V) -> R<i64> {
+    match v {
+        V::Int(n) => Ok(*n),
+        _ => bad(),
+    }
+}
+fn i8v(v: &V) -> R<i8> {
+    i8::try_from(int(v)?).or(bad())
+}
+fn i16v(v: &V) -> R<i16> {
+    i16::try_from(int(v)?).or(bad())
+}
+fn i32v(v: &V) -> R<i32> {
+    i32::try_from(int(v)?).or(bad())
+}
+fn vi<T: Into<i64>>(x: T) -> V {
+    V::Int(x.into())
 }
 fn n8(v: &V) -> R<u8> {
     u8::try_from(num(v)?).or(bad())
@@ -339,10 +366,19 @@ pub enum Dom {
     Any,
     NonZero,
     OneOf(Vec<u64>),
+    /// `bitflags_tlv!`: the union of the declared flags
+    Mask(u64),
 }
 #[derive(Clone)]
 pub enum T {
     U(usize, Dom),
+    /// `iN` (bytes, non-zero)
+    I(usize, bool),
+    /// bit patterns
+    F32,
+    F64,
+    /// `[T; N]`
+    Fix(usize, Box<T>),
     Bool,
     /// octet string: minimum length, capacity
     Oct(usize, Option<usize>),
@@ -492,6 +528,24 @@ pub fn schema(name: &str) -> Option<T> {
         "Sigma2ResumeMsg" => T::St(vec![r(1, Oct), r(2, Oct), r(3, u(2)), o(4, sess_params())]),
         "AclEntry" => acl_entry(),
         "Fabric" => fabric(),
+        "DSTOffsetEntry" => T::St(vec![r(0, T::I(4, false)), r(1, u(8)), o(2, u(8))]),
+        "TimeZoneOwned" => T::St(vec![r(0, T::I(4, false)), r(1, u(8)), o(2, T::Utf8(rs_matter::dm::clusters::time_sync::TIME_ZONE_NAME_MAX))]),
+        "NeighborTable" => T::St(vec![
+            r(0, u(8)),
+            r(1, u(4)),
+            r(2, u(2)),
+            r(3, u(4)),
+            r(4, u(4)),
+            r(5, u(1)),
+            o(6, T::I(1, false)),
+            o(7, T::I(1, false)),
+            r(8, u(1)),
+            r(9, u(1)),
+            r(10, T::Bool),
+            r(11, T::Bool),
+            r(12, T::Bool),
+            r(13, T::Bool),
+        ]),
         _ => return None,
     })
 }
@@ -500,6 +554,7 @@ pub const NAMES: &[&str] = &[
     "AttrPath", "CmdPath", "EventPath", "ClusterPath", "EventFilter", "TimedReq", "Target", "DataVersionFilter", "Status", "StatusResp",
     "SessionParameters", "PBKDFParamReq", "PBKDFParamResp", "Pake1", "Pake2", "Pake3", "Sigma1Req", "Sigma2Resp", "TBEData2Decrypt",
     "Sigma3Decrypt", "Sigma2ResumeMsg", "AclEntry", "Fabric", "AttrStatus", "AttrData", "AttrResp", "CmdStatus", "CmdData", "CmdResp",
+    "DSTOffsetEntry", "TimeZoneOwned", "NeighborTable",
 ];
 
 /// structures that only derive `FromTLV`: `enc` is the layout writer below
@@ -518,6 +573,12 @@ fn layout_write(tw: &mut WriteBuf, tag: &TLVTag, ty: &T, v: &V, order: Option<&[
         (T::U(2, _), V::Num(n)) => tw.u16(tag, u16::try_from(*n).or(bad())?).map_err(e),
         (T::U(4, _), V::Num(n)) => tw.u32(tag, u32::try_from(*n).or(bad())?).map_err(e),
         (T::U(_, _), V::Num(n)) => tw.u64(tag, *n).map_err(e),
+        (T::I(1, _), V::Int(n)) => tw.i8(tag, i8::try_from(*n).or(bad())?).map_err(e),
+        (T::I(2, _), V::Int(n)) => tw.i16(tag, i16::try_from(*n).or(bad())?).map_err(e),
+        (T::I(4, _), V::Int(n)) => tw.i32(tag, i32::try_from(*n).or(bad())?).map_err(e),
+        (T::I(_, _), V::Int(n)) => tw.i64(tag, *n).map_err(e),
+        (T::F32, V::Num(n)) => tw.f32(tag, f32::from_bits(u32::try_from(*n).or(bad())?)).map_err(e),
+        (T::F64, V::Num(n)) => tw.f64(tag, f64::from_bits(*n)).map_err(e),
         (T::Bool, V::Bool(b)) => tw.bool(tag, *b).map_err(e),
         (T::Oct(_, _), V::Bytes(b)) => tw.str(tag, b).map_err(e),
         (T::Utf8(_), V::Bytes(b)) => tw.utf8(tag, core::str::from_utf8(b).or(bad())?).map_err(e),
@@ -550,7 +611,7 @@ fn layout_write(tw: &mut WriteBuf, tag: &TLVTag, ty: &T, v: &V, order: Option<&[
             layout_write(tw, &TLVTag::Context(*t), ty, x, None)?;
             tw.end_container().map_err(e)
         }
-        (T::Arr(_, el), V::Arr(xs)) => {
+        (T::Arr(_, el), V::Arr(xs)) | (T::Fix(_, el), V::Arr(xs)) => {
             tw.start_array(tag).map_err(e)?;
             for x in xs {
                 layout_write(tw, &TLVTag::Anonymous, el, x, None)?;
@@ -691,6 +752,35 @@ fn enc_real(name: &str, v: &V) -> R<String> {
             })?);
             enc_any(&e)
         }
+        "DSTOffsetEntry" => {
+            let s = obj(v, 3)?;
+            enc_any(&DSTOffsetEntry { offset: i32v(&s[0])?, valid_starting: num(&s[1])?, valid_until: opt(&s[2], num)? })
+        }
+        "TimeZoneOwned" => {
+            let s = obj(v, 3)?;
+            let (a, b) = (i32v(&s[0])?, num(&s[1])?);
+            let name = opt(&s[2], |x| core::str::from_utf8(bytes(x)?).or(bad()))?;
+            enc_hook(|buf| rs_matter::dm::clusters::time_sync::verif_tlv::enc_time_zone_owned(a, b, name, buf))
+        }
+        "NeighborTable" => {
+            let s = obj(v, 14)?;
+            enc_any(&NeighborTable {
+                ext_address: num(&s[0])?,
+                age: n32(&s[1])?,
+                rloc16: n16(&s[2])?,
+                link_frame_counter: n32(&s[3])?,
+                mle_frame_counter: n32(&s[4])?,
+                lqi: n8(&s[5])?,
+                average_rssi: opt(&s[6], i8v)?,
+                last_rssi: opt(&s[7], i8v)?,
+                frame_error_rate: n8(&s[8])?,
+                message_error_rate: n8(&s[9])?,
+                rx_on_when_idle: boolean(&s[10])?,
+                full_thread_device: boolean(&s[11])?,
+                full_network_data: boolean(&s[12])?,
+                is_child: boolean(&s[13])?,
+            })
+        }
         n if DEC_ONLY.contains(&n) || REENC_ONLY.contains(&n) => layout_enc(n, v, None),
         _ => "BADNAME".into(),
     })
@@ -762,6 +852,33 @@ fn dec_real(name: &str, data: &[u8]) -> String {
                 ]))
             })
             .unwrap_or_else(err),
+        "DSTOffsetEntry" => DSTOffsetEntry::from_tlv(&e)
+            .map(|v| okv(V::Obj(vec![vi(v.offset), vn(v.valid_starting), vo(v.valid_until, vn)])))
+            .unwrap_or_else(err),
+        "TimeZoneOwned" => rs_matter::dm::clusters::time_sync::verif_tlv::dec_time_zone_owned(data, |a, b, n| {
+            okv(V::Obj(vec![vi(a), vn(b), vo(n, |s| vb(s.as_bytes()))]))
+        })
+        .unwrap_or_else(err),
+        "NeighborTable" => NeighborTable::from_tlv(&e)
+            .map(|v| {
+                okv(V::Obj(vec![
+                    vn(v.ext_address),
+                    vn(v.age),
+                    vn(v.rloc16),
+                    vn(v.link_frame_counter),
+                    vn(v.mle_frame_counter),
+                    vn(v.lqi),
+                    vo(v.average_rssi, vi),
+                    vo(v.last_rssi, vi),
+                    vn(v.frame_error_rate),
+                    vn(v.message_error_rate),
+                    V::Bool(v.rx_on_when_idle),
+                    V::Bool(v.full_thread_device),
+                    V::Bool(v.full_network_data),
+                    V::Bool(v.is_child),
+                ]))
+            })
+            .unwrap_or_else(err),
         _ => "BADNAME".into(),
     }
 }
@@ -780,6 +897,8 @@ pub fn op(name: &str, op: &str) -> String {
             "dec" => shapes::dec(name, &unhex(s.first().copied().unwrap_or("-"))),
             // `pdec <hex of the enc op> <hex>`: permuted fields / unknown extra fields
             "pdec" => shapes::dec(name, &unhex(s.get(1).copied().unwrap_or("-"))),
+            // is this shape meant to be a well-formed declaration (pairwise different tags)?
+            "wf" => if shapes::ILL_FORMED.contains(&name) { "F".into() } else { "T".into() },
             _ => "BADOP".into(),
         };
     }
@@ -809,6 +928,33 @@ fn gen_num(r: &mut Rng, bytes: usize, dom: &Dom, nullable: bool) -> u64 {
     let max = if nullable { max - 1 } else { max };
     match dom {
         Dom::OneOf(vs) => *r.pick(vs),
+        Dom::Mask(m) => {
+            // no flag, all flags, a subset; 1 in 12 (when the type has undeclared bits): a bit outside the
+            // declared flags (`from_bits_retain`: the encoder writes it, the decoder must refuse it — no
+            // round-trip claim)
+            let full: u64 = if bytes >= 8 { u64::MAX } else { (1u64 << (8 * bytes)) - 1 };
+            let m = *m & full;
+            let mut v = match r.below(12) {
+                0 => 0,
+                1 | 2 => m,
+                3 if m != full => {
+                    let mut bit = 0u64;
+                    for _ in 0..64 {
+                        let b = 1u64 << r.below(8 * bytes as u64);
+                        if b & !m != 0 {
+                            bit = b;
+                            break;
+                        }
+                    }
+                    (r.next() & m) | bit
+                }
+                _ => r.next() & m,
+            };
+            if nullable && v == full {
+                v = if m == full { full - 1 } else { m };
+            }
+            v
+        }
         Dom::NonZero => 1 + r.below(max),
         Dom::Any => match r.below(8) {
             0 => 0,
@@ -829,9 +975,74 @@ fn gen_num(r: &mut Rng, bytes: usize, dom: &Dom, nullable: bool) -> u64 {
     }
 }
 
+/// signed integers: the bounds of every width (where the writer switches the element type), 0, ±1
+fn gen_int(r: &mut Rng, bytes: usize, nz: bool, nullable: bool) -> i64 {
+    let bits = 8 * bytes as u32;
+    let (min, max) = if bits >= 64 { (i64::MIN, i64::MAX) } else { (-(1i64 << (bits - 1)), (1i64 << (bits - 1)) - 1) };
+    const EDGES: [i64; 22] = [
+        0, 1, -1, 127, 128, -128, -129, 255, 256, 32767, 32768, -32768, -32769, 65535, 2147483647, 2147483648, -2147483648, -2147483649,
+        4294967295, i64::MAX, i64::MIN, i64::MIN + 1,
+    ];
+    let mut v = match r.below(10) {
+        0 => min,
+        1 => max,
+        2 => min + 1,
+        3..=6 => (*r.pick(&EDGES)).clamp(min, max),
+        _ => {
+            // a random value of a random magnitude
+            let sh = r.below(bits as u64) as u32;
+            let x = (r.next() >> (63 - sh.min(62))) as i64;
+            (if r.chance(1, 2) { x.wrapping_neg() } else { x }).clamp(min, max)
+        }
+    };
+    if nullable && v == min {
+        v = min + 1;
+    }
+    if nz && v == 0 {
+        v = if r.chance(1, 2) { 1 } else { -1 };
+    }
+    v
+}
+
+/// float bit patterns: ±0, ±∞, quiet / signalling NaNs with payloads, subnormals, the smallest normal, 1.0, random
+fn gen_f32(r: &mut Rng) -> u64 {
+    const P: [u32; 14] = [
+        0, 0x8000_0000, 0x7f80_0000, 0xff80_0000, 0x7fc0_0000, 0x7fc0_0001, 0x7fa0_0000, 0xffc1_2345, 0x7fff_ffff, 1, 0x007f_ffff,
+        0x0080_0000, 0x3f80_0000, 0x8000_0001,
+    ];
+    (if r.chance(2, 3) { *r.pick(&P) } else { r.next() as u32 }) as u64
+}
+fn gen_f64(r: &mut Rng) -> u64 {
+    const P: [u64; 14] = [
+        0,
+        0x8000_0000_0000_0000,
+        0x7ff0_0000_0000_0000,
+        0xfff0_0000_0000_0000,
+        0x7ff8_0000_0000_0000,
+        0x7ff8_0000_0000_0001,
+        0x7ff4_0000_0000_0000,
+        0xfff8_1234_5678_9abc,
+        0x7fff_ffff_ffff_ffff,
+        1,
+        0x000f_ffff_ffff_ffff,
+        0x0010_0000_0000_0000,
+        0x3ff0_0000_0000_0000,
+        0x8000_0000_0000_0001,
+    ];
+    if r.chance(2, 3) {
+        *r.pick(&P)
+    } else {
+        r.next()
+    }
+}
+
 fn gen_val(r: &mut Rng, ty: &T, nullable: bool) -> V {
     match ty {
         T::U(n, d) => V::Num(gen_num(r, *n, d, nullable)),
+        T::I(n, nz) => V::Int(gen_int(r, *n, *nz, nullable)),
+        T::F32 => V::Num(gen_f32(r)),
+        T::F64 => V::Num(gen_f64(r)),
+        T::Fix(n, el) => V::Arr((0..*n).map(|_| gen_val(r, el, false)).collect()),
         T::Bool => V::Bool(r.chance(1, 2)),
         T::Oct(lo, cap) => {
             // lengths around the 1-byte / 2-byte length-field boundary, typical key / MIC sizes
@@ -953,11 +1164,11 @@ fn overflow_one(r: &mut Rng, ty: &T, v: &mut V) -> bool {
 /// a derive-shape case: `enc`, `dec`, the fields permuted / unknown fields added (`pdec`), and a
 /// truncated / mutated encoding
 fn gen_shape(r: &mut Rng) -> (String, Vec<String>) {
-    let name = *r.pick(shapes::NAMES);
+    let name = if r.chance(1, 3) { *r.pick(shapes::NEW_NAMES) } else { *r.pick(shapes::NAMES) };
     let (ty, decl) = shapes::info(name).expect("shape");
     let v = gen_val(r, &ty, false);
     let enc_op = format!("enc {}", show(&v));
-    let mut ops = vec![enc_op.clone()];
+    let mut ops = vec!["wf".to_string(), enc_op.clone()];
     let o = op(name, &enc_op);
     if let Some(h) = o.strip_prefix("ok:") {
         ops.push(format!("dec {}", h));
@@ -987,6 +1198,14 @@ fn gen_shape(r: &mut Rng) -> (String, Vec<String>) {
                 }
             }
             ops.push(format!("dec {}", hex(&m)));
+        }
+        // an array field with fewer / more items than were written (`[T; N]`: padding / refusal)
+        for delta in [-1, 1, -2] {
+            if r.chance(1, 2) {
+                if let Some(p) = shapes::resized_array(r, &b, delta) {
+                    ops.push(format!("dec {}", hex(&p)));
+                }
+            }
         }
     }
     (format!("{} {}", name, decl), ops)
